@@ -201,6 +201,7 @@ namespace {
         std::map<int, int> eagain_streak; // per thread: EAGAIN results from send since its last epoll_wait
         sim::Rng frng { 7 };
         bool frng_init = false;
+        std::function<void(int)> close_observer;
     };
     K k;
 
@@ -575,7 +576,10 @@ void reset()
     k.io_progress = 0;
     k.eagain_streak.clear();
     k.frng_init = false;
+    k.close_observer = nullptr;
 }
+
+void set_stream_close_observer(std::function<void(int fd)> fn) { k.close_observer = std::move(fn); }
 
 std::map<std::string, int> census()
 {
@@ -877,7 +881,9 @@ int __wrap_close(int fd)
     }
     default: break;
     }
+    bool was_stream = f->kind == File::KStream && static_cast<Stream*>(f)->conn != nullptr;
     k.fds[static_cast<size_t>(fd - FD_BASE)].reset();
+    if (was_stream && k.close_observer) k.close_observer(fd);
     return 0;
 }
 
